@@ -65,7 +65,8 @@ type SignalCase struct {
 	// shutdown context is done and returns its error (overruns the timeout),
 	// 4 waits until the context is done and returns nil, 5 panics with a
 	// runtime.Error (nil map write), 6 panics with an error value, 7 panic(nil),
-	// 8 panics with a runtime.Error (index out of range).
+	// 8 panics with a runtime.Error (index out of range), 9 returns a non-nil
+	// error whose Error method panics (a typed-nil error).
 	Outcomes []int `json:"outcomes"`
 	// SvcTypes (cycled per service): 0 *struct, 1 func adapter (an unhashable
 	// type), 2 struct value with a slice field (unhashable), 3 comparable
@@ -128,9 +129,18 @@ func (s *svc) Shutdown(ctx context.Context) error {
 	case 8:
 		var a []int
 		_ = a[s.id+1]
+	case 9:
+		// The typed-nil slip: a nil *svcError returned as error.  It is a
+		// non-nil error whose Error method panics.
+		var e *svcError
+		return e
 	}
 	return nil
 }
+
+type svcError struct{ msg string }
+
+func (e *svcError) Error() string { return e.msg }
 
 // funcSvc adapts a function to service.Interface (the usual Go adapter idiom).
 type funcSvc func(ctx context.Context) error
@@ -365,7 +375,7 @@ var signalProp = vp.Register(vp.Prop[SignalCase]{
 		return SignalCase{
 			Groups:          rapid.SliceOfN(rapid.IntRange(1, 4), 0, 4).Draw(t, "groups"),
 			RegMode:         rapid.IntRange(0, 2).Draw(t, "regmode"),
-			Outcomes:        rapid.SliceOfN(rapid.SampledFrom([]int{0, 0, 0, 0, 1, 1, 2, 2, 3, 4, 5, 6, 7, 8}), 0, 6).Draw(t, "outcomes"),
+			Outcomes:        rapid.SliceOfN(rapid.SampledFrom([]int{0, 0, 0, 0, 1, 1, 2, 2, 3, 4, 5, 6, 7, 8, 9}), 0, 6).Draw(t, "outcomes"),
 			SvcTypes:        rapid.SliceOfN(rapid.SampledFrom([]int{0, 0, 0, 1, 2, 3}), 0, 4).Draw(t, "svctypes"),
 			CancelledParent: rapid.IntRange(0, 5).Draw(t, "cancelled") == 0,
 			Pre:             rapid.SliceOfN(rapid.SampledFrom([]int{1, 10, 12, 13, 17, 28}), 0, 6).Draw(t, "pre"),
